@@ -19,6 +19,7 @@ import (
 	"sync"
 	"sync/atomic"
 	"time"
+	"unsafe"
 )
 
 type schedKey struct{}
@@ -305,6 +306,8 @@ func waitNoDialsGoroutines(max time.Duration) []string {
 		time.Sleep(2 * time.Millisecond)
 	}
 }
+
+func unsafePtr[T any](p *T) unsafe.Pointer { return unsafe.Pointer(p) }
 
 func fatalf(format string, a ...any) {
 	fmt.Fprintf(os.Stderr, format+"\n", a...)
